@@ -32,6 +32,7 @@ class TableFilter:
     """item j -> its outputs, then possibly an error (as a generator: the error comes after the outputs)"""
     def __init__(self, table): self.table = table
     def filter(self, item):
+        if isinstance(item, list): item = item[0]      # a recycled buffer: the caller re-fills one list object for every item
         outs, raises, kind = self.table[item]
         for o in outs: yield o
         if raises and kind == "EXIT":      # the worker process dies without reporting (real-process layer only)
@@ -209,7 +210,7 @@ class Patches:
 ACT = {0: ("K",), 1: ("L",), 2: ("LC",)}
 def actor_of(code): return ACT[code] if code < 3 else (("W", (code - 3) // 2) if (code - 3) % 2 == 0 else ("C", (code - 4) // 2))
 
-def run_impl(n, m, ab, table, nitems, schedule, tail_rounds=400):
+def run_impl(n, m, ab, table, nitems, schedule, tail_rounds=400, recycled=False):
     """returns (observations per step, schedule actually used, result)"""
     from coba.pipes.multiprocessing import Multiprocessor
     s = Sched()
@@ -219,7 +220,10 @@ def run_impl(n, m, ab, table, nitems, schedule, tail_rounds=400):
         try:
             mp = Multiprocessor(TableFilter(table), n, m); holder["mp"] = mp
             s.park(("K",))
-            gen = mp.filter(list(range(nitems)))
+            def refilled():      # a lazy stream that hands out ONE buffer object, re-filled in place for every item
+                buf = [None]
+                for j in range(nitems): buf[0] = j; yield buf
+            gen = mp.filter(refilled() if recycled else list(range(nitems)))
             for y in gen:
                 ys.append(y)
                 if ab is not None and len(ys) == ab:
@@ -292,13 +296,14 @@ def gen_case(rng):
         for _ in range(rng.randrange(1, 12)): sched += [rng.choice(codes)] * rng.randrange(1, 8)
     else:                  # starve one actor for a long time
         starve = rng.choice(codes[1:]); sched = [c for c in (rng.choice(codes) for _ in range(80)) if c != starve]
-    return n, m, ab, table, [0] + sched
+    return n, m, ab, table, [0] + sched, rng.random() < 0.2
 
 def check_case(ctx, case, reqs, metas, kind="random"):
-    n, m, ab, table, sched = case
-    desc = dict(n=n, m=m, abandon=ab, items=[[o, r, k] for o, r, k in table], schedule=sched)
+    n, m, ab, table, sched = case[:5]
+    recycled = len(case) > 5 and case[5]
+    desc = dict(n=n, m=m, abandon=ab, items=[[o, r, k] for o, r, k in table], schedule=sched, recycled_buffer=recycled)
     try:
-        obs, used, res, ys = run_impl(n, m, ab, table, len(table), sched)
+        obs, used, res, ys = run_impl(n, m, ab, table, len(table), sched, recycled=recycled)
     except TimeoutError as e:
         ctx.fail(["scheduler", "timeout"], "the scheduled run did not reach a control point: %s" % e, desc); return
     desc["schedule"] = used
@@ -362,7 +367,7 @@ def smoke(ctx, k):
              (2, 0, [([0], False, None), ([1], True, "EXIT"), ([2], False, None), ([3], False, None)], False),
              (1, 2, [([0], True, "EXIT"), ([1], False, None)], False)]
     for _ in range(k):
-        n, m, ab, table, _ = gen_case(rng)
+        n, m, ab, table = gen_case(rng)[:4]
         cases.append((n, m, table, rng.random() < 0.3))
     work = os.path.join(VERIF, ".work"); os.makedirs(work, exist_ok=True)
     cf = os.path.join(work, "c08_smoke_%d.json" % os.getpid()); sf = os.path.join(work, "c08_smoke_%d.py" % os.getpid())
@@ -411,7 +416,7 @@ def inproc(ctx, k):
     from coba.pipes.multiprocessing import Multiprocessor
     rng = ctx.rng
     for _ in range(k):
-        _, _, _, table, _ = gen_case(rng)
+        table = gen_case(rng)[3]
         desc = dict(n=1, m=0, items=[[o, r, kd] for o, r, kd in table], inprocess=True)
         ctx.count("inprocess", repr(desc), len(table) >= 2)
         exp, err = [], None
@@ -424,6 +429,19 @@ def inproc(ctx, k):
             res = None
         except Exception as e: res = type(e).__name__
         if res != err or got != exp: ctx.fail(["inprocess"], "one process, no task limit: yielded %r then %s; item by item gives %r then %s" % (got, res, exp, err), desc)
+    # the items are the caller's: falsy and None items (first or later) are items like any other, at both layers
+    from coba.multiprocessing import CobaMultiprocessor
+    class Echo:
+        def filter(self, item): yield ("seen", repr(item))
+    for items in ([None, 1, 2], [0, 1], ["", 2], [[], 3], [None], [1, None, 2], [False, None], [0]):
+        exp = [("seen", repr(x)) for x in items]
+        for layer, make in (("Multiprocessor", lambda: Multiprocessor(Echo(), 1, 0)), ("CobaMultiprocessor", lambda: CobaMultiprocessor(Echo(), 1, 0))):
+            desc = dict(n=1, m=0, items=[repr(x) for x in items], layer=layer, inprocess=True)
+            ctx.count("payload", repr(desc), True)
+            try: got = list(make().filter(iter(list(items)))); res = None
+            except Exception as e: got = []; res = type(e).__name__
+            if res is not None or got != exp:
+                ctx.fail(["payload", layer, "first-none" if items[0] is None else "falsy"], "%s(filter, 1, 0).filter(%r) yielded %r%s; every item has one output" % (layer, items, got, " then raised " + res if res else ""), desc)
     # an output that is None is indistinguishable from the pill of the output queue
     table = [([0], False, None), ([None, 1], False, None), ([2], False, None)]
     desc = dict(n=2, m=0, items=[[o, r, kd] for o, r, kd in table], schedule="fair")
